@@ -1833,7 +1833,7 @@ where
             local_name!("xlink:type") => Some(qualname!("xlink" xlink "type")),
             local_name!("xml:lang") => Some(qualname!("xml" xml "lang")),
             local_name!("xml:space") => Some(qualname!("xml" xml "space")),
-            local_name!("xmlns") => Some(qualname!("" xmlns "xmlns")),
+            local_name!("xmlns") => Some(QualName::new(None, ns!(xmlns), local_name!("xmlns"))),
             local_name!("xmlns:xlink") => Some(qualname!("xmlns" xmlns "xlink")),
             _ => None,
         });
